@@ -440,19 +440,23 @@ func c15r7(r *R) {
 func c16r9(r *R) {
 	for _, spec := range []struct{ typ string }{{"proxyConn"}, {"proxyHandler"}} {
 		fn := r.method("internal/martian", spec.typ, "writeErrorResponse")
-		var bind, mod ssa.Instruction
+		var bind, mod, rawBind, rawMod ssa.Instruction
 		eachInstr(fn, func(ins ssa.Instruction) {
 			switch x := ins.(type) {
 			case *ssa.Store:
 				if fa, ok := x.Addr.(*ssa.FieldAddr); ok && typeStr(fa.X.Type()) == "*net/http.Response" && fieldName(fa.X.Type(), fa.Field) == "Request" {
-					bind = siteOf(ins)
+					bind, rawBind = siteOf(ins), ins
 				}
 			case *ssa.Call:
 				if strings.HasSuffix(calleeName(x.Common()), ").modifyResponse") && mod == nil {
-					mod = siteOf(ins)
+					mod, rawMod = siteOf(ins), ins
 				}
 			}
 		})
+		// both inside one helper that was split out (or shared by the two front ends): order them there
+		if bind != nil && bind == mod && rawBind.Parent() == rawMod.Parent() {
+			bind, mod = rawBind, rawMod
+		}
 		if bind == nil || mod == nil {
 			r.bad(spec.typ+".writeErrorResponse#bind-before-rules", fn.Pos(), "the relayed response is not bound to the client's request, or the response modifiers are not run")
 			continue
